@@ -385,10 +385,42 @@ def rule_KN(run: Run) -> RuleResult:
                 detail_kn = ""
     if n < 4:
         raise AnalysisError(f"only {n} KeyNotFoundError raise sites found")
-    # every raise of an EvaluationError subclass hands a node where the constructor expects the source / an
-    # evaluatable, and text where it expects the message (swapped arguments put the message into `.source`)
+    # every construction of one of the library's error records (a raise of an EvaluationError / CacheFailure subclass, and the
+    # super().__init__(…) inside their constructors) hands each parameter a value of its declared kind: an expression where
+    # the source / evaluatable is expected, text where the message is, the options dictionary where the options are — swapped
+    # arguments put the message into `.source`, the options into `.evaluatable`
     from .interp import annotation_kind, exc_is_subclass
     n_sites = 0
+
+    def ann_kind(mod, ann) -> str:
+        if ann is None:
+            return "?"
+        if isinstance(ann, ast.Constant) and isinstance(ann.value, str):
+            try:
+                ann = ast.parse(ann.value, mode="eval").body
+            except SyntaxError:
+                return "?"
+        txt = ast.unparse(ann)
+        if "Maybe" in txt or "Union" in txt or "Optional" in txt or txt in ("Any", "typing.Any", "object"):
+            return "?"
+        if annotation_kind(repo, mod, ann) == "node" or txt.split("[")[0].split(".")[-1] in ("Evaluatable", "Cacheable", "Validatable", "Explainable"):
+            return "node"
+        if any(w in txt for w in ("Evaluatable", "Cacheable", "Validatable", "Explainable")):
+            return "?"          # a container of expressions
+        if txt == "str":
+            return "text"
+        if txt.split(".")[-1] == "Options":
+            return "options"
+        if txt.split("[")[0].split(".")[-1] == "Cache":
+            return "cache"
+        if txt.split("[")[0].split(".")[-1] in ("Hashable", "int", "float", "bool", "Mapping", "Dict", "Sequence", "List", "Tuple"):
+            return "plain"
+        return "?"
+
+    def error_class(ci) -> bool:
+        return ci is not None and any(c.name in ("EvaluationError", "CacheFailure", "Request") or any(b.split(".")[-1] in ("Exception", "BaseException") for b in c.external_bases()) for c in ci.mro())
+
+    ACCEPTS = {"node": {"node"}, "text": {"text"}, "options": {"options"}, "cache": {"cache"}, "plain": {"plain", "text"}}
     for m, cls, fn, q in iter_functions(repo):
         if m.name.startswith("labrea.mypy"):
             continue
@@ -401,41 +433,78 @@ def rule_KN(run: Run) -> RuleResult:
                 return "text"
             if isinstance(e, ast.Call) and astu.short_name(e) in ("str", "repr", "format", "join"):
                 return "text"
-            if isinstance(e, ast.Name) and e.id in ("self", "cls") and cls is not None and cls.is_subclass_of("Evaluatable"):
-                return "node"
+            if isinstance(e, ast.Name) and e.id in ("self", "cls") and cls is not None:
+                if cls.is_subclass_of("Evaluatable"):
+                    return "node"
+                if cls.is_subclass_of("Cache"):
+                    return "cache"
+                return "?"
             if isinstance(e, ast.Name) and e.id in pann:
-                return "node" if annotation_kind(repo, m, pann[e.id]) == "node" else ("text" if ast.unparse(pann[e.id]) == "str" else "?")
+                return ann_kind(m, pann[e.id])
             if isinstance(e, ast.Attribute) and isinstance(e.value, ast.Name) and e.value.id == "self" and cls is not None:
                 for kc in cls.mro():
                     if e.attr in kc.annotations:
-                        return "node" if annotation_kind(repo, kc.module, kc.annotations[e.attr]) == "node" else "?"
+                        return ann_kind(kc.module, kc.annotations[e.attr])
+            if isinstance(e, ast.Attribute) and isinstance(e.value, ast.Name) and e.value.id in pann:
+                # an attribute of a parameter whose annotation names a class of the repository (request.options, request.evaluatable)
+                base = pann[e.value.id]
+                while isinstance(base, ast.Subscript):
+                    base = base.value
+                oc = repo.resolve_class(m, base) if isinstance(base, (ast.Name, ast.Attribute)) else None
+                if oc is not None:
+                    for kc in oc.mro():
+                        if e.attr in kc.annotations:
+                            return ann_kind(kc.module, kc.annotations[e.attr])
             if isinstance(e, ast.Attribute) and e.attr in ("evaluatable", "validatable", "cacheable", "explainable"):
                 return "node"
             return "?"
 
-        for r in astu.walk_no_nested(fn):
-            if not (isinstance(r, ast.Raise) and isinstance(r.exc, ast.Call) and isinstance(r.exc.func, (ast.Name, ast.Attribute))):
+        for c_ in astu.walk_no_nested(fn):
+            if not isinstance(c_, ast.Call):
                 continue
-            ec = repo.resolve_class(m, r.exc.func)
-            if ec is None or not (ec.name == "EvaluationError" or ec.is_subclass_of("EvaluationError")):
+            ec = None
+            label = ""
+            if isinstance(c_.func, ast.Attribute) and c_.func.attr == "__init__" and isinstance(c_.func.value, ast.Call) and astu.short_name(c_.func.value) == "super" \
+                    and cls is not None and fn.name == "__init__" and error_class(cls):
+                for kc in cls.mro()[1:]:
+                    if "__init__" in kc.methods:
+                        ec = kc
+                        break
+                label = f"super().__init__ of {cls.name}"
+            elif isinstance(c_.func, (ast.Name, ast.Attribute)):
+                ec0 = repo.resolve_class(m, c_.func)
+                if error_class(ec0):
+                    ec = ec0
+                    label = f"{ec.name}(…)"
+            if ec is None:
                 continue
             init_r = ec.find_method("__init__")
             if init_r is None:
                 continue
-            iparams = init_r[1].args.posonlyargs + init_r[1].args.args
-            iparams = iparams[1:]
+            iparams = (init_r[1].args.posonlyargs + init_r[1].args.args)[1:]
             bad = []
-            for a_, p_ in zip(r.exc.args, iparams):
+            # positional arguments line up with the parameters only up to the first *spread
+            plain_args = []
+            for a_ in c_.args:
+                if isinstance(a_, ast.Starred):
+                    break
+                plain_args.append(a_)
+            pairs = list(zip(plain_args, iparams)) + [(k.value, p_) for k in c_.keywords for p_ in iparams + init_r[1].args.kwonlyargs if k.arg == p_.arg]
+            for a_, p_ in pairs:
                 if isinstance(a_, ast.Starred) or p_.annotation is None:
                     continue
-                want = "node" if annotation_kind(repo, init_r[0].module, p_.annotation) == "node" else ("text" if ast.unparse(p_.annotation) == "str" else "?")
+                want = ann_kind(init_r[0].module, p_.annotation)
                 got = kind_of(a_)
-                if want != "?" and got != "?" and want != got:
-                    bad.append(f"parameter {p_.arg} ({ast.unparse(p_.annotation)}) receives {ast.unparse(a_)[:40]}")
+                if want != "?" and got != "?" and got not in ACCEPTS[want]:
+                    bad.append(f"parameter {p_.arg} ({ast.unparse(p_.annotation)}) receives {ast.unparse(a_)[:40]} (a {got})")
             n_sites += 1
-            res.add(f"{q}:raise {ec.name} arguments match the constructor (source is a node, message is text)", not bad, m.relpath, r.lineno,
-                    "; ".join(bad) or ast.unparse(r.exc)[:80], nec)
+            shown = ec.name if label.endswith("(…)") else label
+            res.add(f"{q}:{'raise ' if not ec.is_subclass_of('Request') else ''}{shown} arguments match the constructor (source is a node, message is text)" if label.endswith("(…)") else
+                    f"{q}:{label} arguments match the base constructor", not bad, m.relpath, c_.lineno,
+                    "; ".join(bad) or ast.unparse(c_)[:80], nec)
     res.count("evaluation_error_raise_sites", n_sites)
+    if n_sites < 15:
+        raise AnalysisError(f"R-KN: only {n_sites} constructions of error records found")
     return res
 
 
